@@ -57,3 +57,36 @@ pub fn bishop(coord: Coord, occupied: Bitboard) -> Bitboard {
         *entry.lookup.add(idx as usize) & entry.post_mask
     }
 }
+
+/// Verification hook: exposes the index arithmetic of the magic lookup without performing it.
+///
+/// Returns `(index, offset, table_len, mask, post_mask)`, where `index` is the index computed
+/// from `occupied` exactly as [`rook`]/[`bishop`] do, `offset` is the position of the entry's
+/// lookup range inside the shared table and `table_len` is the length of that table.
+#[cfg(feature = "verif")]
+pub fn verif_magic_probe(
+    is_rook: bool,
+    coord: Coord,
+    occupied: Bitboard,
+) -> (usize, usize, usize, Bitboard, Bitboard) {
+    let (entry, magic, shift, base, len) = if is_rook {
+        (
+            &MAGIC_ROOK[coord.index()],
+            MAGIC_CONSTS_ROOK[coord.index()],
+            MAGIC_SHIFTS_ROOK[coord.index()],
+            MAGIC_LOOKUP_ROOK.as_ptr(),
+            MAGIC_LOOKUP_ROOK.len(),
+        )
+    } else {
+        (
+            &MAGIC_BISHOP[coord.index()],
+            MAGIC_CONSTS_BISHOP[coord.index()],
+            MAGIC_SHIFTS_BISHOP[coord.index()],
+            MAGIC_LOOKUP_BISHOP.as_ptr(),
+            MAGIC_LOOKUP_BISHOP.len(),
+        )
+    };
+    let idx = (occupied & entry.mask).as_raw().wrapping_mul(magic) >> shift;
+    let offset = (entry.lookup as usize - base as usize) / std::mem::size_of::<Bitboard>();
+    (idx as usize, offset, len, entry.mask, entry.post_mask)
+}
